@@ -131,8 +131,26 @@ def stream_history(ctx, n, steps):
             u = rng.choice(list(held))
             M.op('decref', u)
             del held[u]
-        else:
+        elif k < 0.95:
             M.op('reorder', None)
+        else:
+            # remove the unused variables; the held truth tables lose those columns
+            b = M.b
+            full_levels = {i for i, _, _ in b._succ.values()}
+            unused = sorted(int(v[1:]) for v, l in b.vars.items() if l not in full_levels)
+            r = M.op('undeclare', [])
+            if r is not None and unused:
+                # rename the remaining variables is not possible: names are fixed, so
+                # simply stop using this history's truth-table bookkeeping
+                for u in held:
+                    M.op('decref', u)
+                held = {}
+                keep = [v for v in range(nv) if v not in unused]
+                if keep != list(range(len(keep))):
+                    break
+                nv = len(keep)
+                M.nv = nv
+                M.names = list(range(nv))
         # independent re-check of the node table after every step
         if not M.check_table('C02:table'):
             break
@@ -160,6 +178,7 @@ def stream_history(ctx, n, steps):
 def run(ctx):
     q = ctx.quick
     rng = ctx.rng
+    gen.undeclare_scenarios(ctx, 'C02:undeclare-not-canonical', 'C02', quick=q)
     for n in (1, 2):
         for order in gen.orders(n):
             stream_routes(ctx, n, order, range(1 << (1 << n)))
